@@ -584,8 +584,8 @@ fn main() {
     // more deletes / updates, embeddings on more puts, the bulk paths that detach the engine
     prof.w_update = 18; prof.w_delete = 16; prof.w_skip = 4; prof.w_finalize = 3; prof.emb_percent = 45; prof.wrong_dim_percent = 1;
     prof.w_reopen = 6; prof.w_crash = 4; prof.w_ticket = 0;
-    prof.n_short = if args.thorough { 300 } else { 26 };
-    prof.n_long = if args.thorough { 20 } else { 2 };
+    prof.n_short = if args.thorough { 70 } else { 26 };
+    prof.n_long = if args.thorough { 6 } else { 2 };
     prof.short_len = (12, 50);
     prof.corpus = corpus();
     let rule = "the Core history generator with more updates / deletes / embeddings / skip-index commits; after every op, for every \
